@@ -13,11 +13,11 @@ CHECKS = {
          "the same documents in twin collections differing only in indexes (9 index sets, 4 creation orders): FindAll/Count/Update/UpdateFunc/Delete must select the same documents / sort-key sequence as the unindexed twin",
          "the unindexed twin is the oracle; alphabets bounded (DESIGN 4/C02)"),
  "C03": ("exploration", "exhaustive sweep of every collection size x index set x bulk operation x backend",
-         "every size from 0 to the bound, so page-boundary effects cannot hide between sampled sizes; callback log and post-state compared with FindAll-before and the reference model",
+         "every size from 0 to the bound (plus sizes just beyond batching thresholds and large padded documents), four index sets incl. nested and optional fields, 25 bulk operations and the full sort x skip x limit grid; callback log and post-state compared with FindAll-before and the reference model",
          "sizes above the bound only at a few listed values"),
  "C04": ("fault_enumeration", "exhaustive enumeration of every failing store call of every operation on the real stores + erroring transitions of the state-space search",
          "for every operation, pre-state and backend, every position k of a failing begin/get/set/delete/cursor-read/commit: error reported, raw content unchanged, nothing leaked, re-run behaves as the model says",
-         "single faults per run; failures are injected by a store wrapper above the real adapters"),
+         "single faults per run; failures are injected by a store wrapper above the real adapters; operations with hundreds of store calls have thinned fault positions"),
  "C05": ("fault_enumeration", "exhaustive enumeration of crash points (file image at every store call; SIGKILL of a child at every store call) over all short write histories, then reopen",
          "every store call of every history up to the bound is a crash point; the reopened database must equal the acknowledged prefix or that plus the operation in flight, with intact indexes/counts/catalog and a raw key set equal to a canonical rebuild",
          "process death, not power loss; crash points are store-call boundaries (bbolt's internal page-write order is bbolt's contract)"),
